@@ -17,11 +17,12 @@ TECHNIQUE = ("property-based testing (Hypothesis): generated conceptual tables (
              "PyWrapper.bulktable against the reference agent under generated GETBULK truncation; absolute oracle = rows "
              "computed from the database, differential oracle = all variants agree")
 RULE = ("case = table OID T x columns subset of 1..12 x 0..10 rows with index suffixes of 1..4 components (sub-identifiers up "
-        "to 2^32-1) x per-cell presence x neighbours {scalar before, sibling table right after, sibling whose arc textually "
+        "to 2^32-1) x per-cell presence x protocol incl. SNMPv1 (GETNEXT variants only) x neighbours {scalar before, sibling table right after, sibling whose arc textually "
         "extends T's arc, nothing after (end of view)} x bulk size 1..30 x truncation script x protocol {v2c, v3}; non-trivial "
         "= >= 2 rows and (sparse column or multi-component index or directly adjacent neighbour or end of view); distinct = "
         "SHA-1 of canonical JSON case")
 ASSUMPTIONS = [
+    "SNMPv1: the noSuchName that answers the request after the last cell ends the fetch normally (documented v1 end-of-tree signal); an EMPTY table behind the last object of a v1 view is outside the domain",
     "a conceptual table has one entry object T.1 and columns T.1.c with c >= 1 (SMIv2); table() takes the entry OID, bulktable() the table OID (as documented)",
     "row order is unspecified: rows are compared as a multiset",
     "only RFC 3416-conformant truncation of GETBULK responses (at least one binding)",
@@ -72,7 +73,15 @@ def run_case(case) -> Result:
     S = vagent.S
     results = {}
     fired = False
-    for variant in case.get("variants", ["table", "bulktable", "pytable", "pybulktable"]):
+    variants = ["table", "bulktable", "pytable", "pybulktable"]
+    if proto["v"] == "1":
+        variants = ["table", "pytable"]      # SNMPv1 has no GETBULK
+        if not want and "end_of_view" in flags:
+            # an empty table behind the last object of an SNMPv1 view: the very first GETNEXT is answered noSuchName.
+            # Whether that is an empty table or NoSuchOID is not specified anywhere (the documented v1 end-of-tree
+            # handling concerns continuation requests); outside the domain.
+            return Result(None, False, sorted(classes | {"v1_empty_table_at_end_skipped"}))
+    for variant in case.get("variants", variants):
         agent, client = vworld.make_world(proto, db, request_cap=cap,
                                           bulk_script=[tuple(p) for p in case.get("bulk_script", [])])
         py = vworld.PyWrapper(client)
@@ -189,7 +198,11 @@ def cases(draw, v3_weight=1):
                                      st.tuples(st.just("cut"), st.integers(1, 9)).map(list),
                                      st.tuples(st.just("frac"), st.sampled_from([100, 350, 500, 900])).map(list)),
                            max_size=6))
-    proto = draw(vs.proto(v3_weight=v3_weight))
+    proto = draw(vs.proto(v3_weight=v3_weight, v1=True))
+    if proto["v"] == "1":
+        # an SNMPv1 agent holds no Counter64
+        db = {o: ([vber.T_GAUGE, v[1][-8:] if len(v[1]) <= 8 else "00" + v[1][-6:]] if v[0] == vber.T_COUNTER64 else v) for o, v in db.items()}
+        db = {o: ([v[0], "00" + v[1][-6:]] if v[0] == vber.T_GAUGE and len(v[1]) >= 8 and int(v[1][:2], 16) >= 0x80 else v) for o, v in db.items()}
     return dict(db=[[list(o), v[0], v[1]] for o, v in sorted(db.items())], table=list(table), bulk=bulk,
                 bulk_script=script, proto=proto, flags=sorted(flags))
 
